@@ -55,6 +55,8 @@ pub struct Ctx<'a> {
     pub irs: u32,
     /// victim's MSS option
     pub v_mss: Option<u16>,
+    /// window field of the victim's bare SYN (active open), valid until its first ACK
+    pub v_syn_win: Option<u16>,
     pub last_v_frames: Vec<Packet>,
 }
 
@@ -87,6 +89,7 @@ impl<'a> Ctx<'a> {
                         self.v_ws = t.opts.wscale;
                         self.v_mss = t.opts.mss;
                         self.v_snd_max = t.seq;
+                        self.v_syn_win = if t.has(F_ACK) { None } else { Some(t.win) };
                     }
                     let end = t.seq.wrapping_add(t.seg_len());
                     if seq_lt(self.v_snd_max, end) {
@@ -258,6 +261,7 @@ pub fn setup<'a>(tape: &'a mut Tape, props: Props, trace_on: bool, mode: Mode) -
         p_mss,
         irs,
         v_mss: None,
+        v_syn_win: None,
         last_v_frames: vec![],
     };
     (ctx, Setup { v6, rx, tx, mtu, victim_listens, desc })
@@ -754,6 +758,386 @@ fn sender_body(c: &mut Ctx, su: &Setup, thorough: bool) -> Result<(), Violation>
             _ => *c.tape.pick(&[3_000_000i64, 10_000_000, 61_000_000]),
         };
         c.now += d;
+    }
+    Ok(())
+}
+
+// =============================================================================================
+// C17: transition acceptor. One stimulus at a time; state() before and after.
+
+#[derive(Clone, Debug)]
+enum Stim {
+    Api(&'static str),
+    Seg { syn: bool, fin: bool, rst: bool, ack: Option<u32>, seq: u32, len: u32 },
+    Egress,
+}
+
+struct Conn {
+    /// victim's reference values for the current incarnation
+    v_written: u64,
+    app_read: u64,
+    fin_accepted: bool,
+    was_listener: bool,
+    t_timewait: i64,
+    t_last_seg: i64,
+    irs: u32,
+    key: u64,
+    /// close() was called in SYN-RECEIVED (the SYN is still unacknowledged in FIN-WAIT-1)
+    closed_in_synrcvd: bool,
+}
+
+pub fn run_states(tape: &mut Tape, props: Props, thorough: bool, trace_on: bool) -> Outcome {
+    let (mut c, su) = setup(tape, props, trace_on, Mode::States);
+    let desc = su.desc.clone();
+    let r = states_body(&mut c, &su, thorough);
+    let nontrivial = c.stats.get("c17.transitions") >= 2 && c.stats.get("c17.stimuli") >= 10;
+    let v = r.err();
+    outcome(c, v, nontrivial, desc)
+}
+
+fn st_name(s: tcp::State) -> &'static str {
+    match s {
+        tcp::State::Closed => "CLOSED",
+        tcp::State::Listen => "LISTEN",
+        tcp::State::SynSent => "SYN-SENT",
+        tcp::State::SynReceived => "SYN-RECEIVED",
+        tcp::State::Established => "ESTABLISHED",
+        tcp::State::FinWait1 => "FIN-WAIT-1",
+        tcp::State::FinWait2 => "FIN-WAIT-2",
+        tcp::State::CloseWait => "CLOSE-WAIT",
+        tcp::State::Closing => "CLOSING",
+        tcp::State::LastAck => "LAST-ACK",
+        tcp::State::TimeWait => "TIME-WAIT",
+    }
+}
+
+fn states_body(c: &mut Ctx, su: &Setup, thorough: bool) -> Result<(), Violation> {
+    use tcp::State::*;
+    // no timers that legitimately abort: the acceptor stays sharp
+    {
+        let s = c.sock();
+        s.set_timeout(None);
+        s.set_keep_alive(None);
+    }
+    let mut conn = Conn { v_written: 0, app_read: 0, fin_accepted: false, was_listener: false, t_timewait: 0, t_last_seg: 0, irs: c.irs, key: c.tape.draw(u64::MAX) | 1, closed_in_synrcvd: false };
+    let vkey = c.tape.draw(u64::MAX) | 2;
+    let nsteps = c.tape.range(10, if thorough { 400 } else { 150 });
+    // optionally start from an established connection so deep states are reached often
+    if c.tape.chance(2, 3) {
+        conn.was_listener = su.victim_listens;
+        let _ = handshake(c, su, 8192)?;
+    }
+    for _ in 0..nsteps {
+        let before = c.sock().state();
+        let iss = c.iss_v;
+        // reference RCV.NXT from the victim's public API (bytes it accepted in sequence)
+        let rq = c.sock().recv_queue() as u64;
+        let rcv_nxt = conn.irs.wrapping_add(1).wrapping_add((conn.app_read + rq) as u32).wrapping_add(conn.fin_accepted as u32);
+        let edge = c.v_edge_last.unwrap_or(match c.v_syn_win {
+            Some(w) if !matches!(before, Listen | SynSent | Closed) => conn.irs.wrapping_add(1).wrapping_add(w as u32),
+            _ => rcv_nxt,
+        });
+        let win = seq_diff(edge, rcv_nxt).max(0) as u32;
+        let fin_seq = iss.map(|i| i.wrapping_add(1).wrapping_add(conn.v_written as u32));
+        let kind = c.tape.draw(10);
+        let stim: Stim;
+        match kind {
+            0 | 1 => {
+                // ---- API call
+                let which = c.tape.draw(7);
+                let name = match which {
+                    0 => "recv",
+                    1 => "send",
+                    2 => "close",
+                    3 => "listen",
+                    4 => "connect",
+                    5 => "abort",
+                    _ => "recv",
+                };
+                stim = Stim::Api(name);
+                let (p_addr, p_port, v_port) = (to_smol(&c.p_addr), c.p_port, c.v_port);
+                match name {
+                    "recv" => {
+                        let mut buf = vec![0u8; c.tape.size(1, 4096) as usize];
+                        let s = c.node.sockets.get_mut::<tcp::Socket>(c.h);
+                        if let Ok(k) = guard("tcp::recv_slice", || s.recv_slice(&mut buf))? {
+                            conn.app_read += k as u64;
+                        }
+                    }
+                    "send" => {
+                        let n = c.tape.size(1, 300) as usize;
+                        let buf: Vec<u8> = (0..n as u64).map(|j| stream_byte(vkey, conn.v_written + j)).collect();
+                        let s = c.node.sockets.get_mut::<tcp::Socket>(c.h);
+                        if let Ok(k) = guard("tcp::send_slice", || s.send_slice(&buf))? {
+                            conn.v_written += k as u64;
+                        }
+                    }
+                    "close" => {
+                        let s = c.node.sockets.get_mut::<tcp::Socket>(c.h);
+                        guard("tcp::close", || s.close())?;
+                        if before == SynReceived {
+                            conn.closed_in_synrcvd = true;
+                        }
+                    }
+                    "abort" => {
+                        let s = c.node.sockets.get_mut::<tcp::Socket>(c.h);
+                        guard("tcp::abort", || s.abort())?;
+                    }
+                    "listen" => {
+                        let s = c.node.sockets.get_mut::<tcp::Socket>(c.h);
+                        let r = guard("tcp::listen", || s.listen(v_port))?;
+                        if r.is_ok() && before != Listen {
+                            conn = Conn { v_written: 0, app_read: 0, fin_accepted: false, was_listener: true, t_timewait: 0, t_last_seg: 0, irs: c.tape.draw(u32::MAX as u64) as u32, key: conn.key, closed_in_synrcvd: false };
+                            c.iss_v = None;
+                            c.v_edge = None;
+                            c.v_edge_last = None;
+                        }
+                    }
+                    _ => {
+                        let n = &mut c.node;
+                        let cx = n.iface.context();
+                        let s = n.sockets.get_mut::<tcp::Socket>(c.h);
+                        let r = guard("tcp::connect", || s.connect(cx, (p_addr, p_port), v_port))?;
+                        if r.is_ok() {
+                            conn = Conn { v_written: 0, app_read: 0, fin_accepted: false, was_listener: false, t_timewait: 0, t_last_seg: 0, irs: c.tape.draw(u32::MAX as u64) as u32, key: conn.key, closed_in_synrcvd: false };
+                            c.iss_v = None;
+                            c.v_edge = None;
+                            c.v_edge_last = None;
+                        }
+                    }
+                }
+            }
+            2 | 3 => {
+                // ---- time passes, then one egress pass
+                let d = *c.tape.pick(&[0i64, 1_000, 200_000, 1_500_000, 9_999_000, 10_000_000, 10_001_000, 30_000_000, 70_000_000]);
+                c.now += d;
+                stim = Stim::Egress;
+                let fr = c.egress()?;
+                let _ = fr;
+            }
+            _ => {
+                // ---- one segment
+                let base = if matches!(before, Listen | SynSent | Closed) { conn.irs } else { rcv_nxt };
+                let seq = match c.tape.draw(10) {
+                    0 | 1 | 2 => base,
+                    3 => base.wrapping_sub(1),
+                    4 => base.wrapping_add(1),
+                    5 => base.wrapping_add(win / 2),
+                    6 => edge.wrapping_sub(1),
+                    7 => edge,
+                    8 => base.wrapping_sub(c.tape.range(2, 100_000) as u32),
+                    _ => base.wrapping_add(c.tape.range(2, 100_000) as u32),
+                };
+                let snd_max = c.v_snd_max;
+                let ack = match c.tape.draw(10) {
+                    0 | 1 | 2 | 3 => Some(snd_max),
+                    4 => iss.map(|i| i.wrapping_add(1)),
+                    5 => Some(snd_max.wrapping_sub(1)),
+                    6 => Some(snd_max.wrapping_add(1)),
+                    7 => fin_seq.map(|f| f.wrapping_add(1)),
+                    8 => None,
+                    _ => Some(c.tape.draw(u32::MAX as u64) as u32),
+                };
+                let fl = c.tape.draw(12);
+                let (syn, fin, rst) = match fl {
+                    0 | 1 | 2 | 3 => (false, false, false),
+                    4 | 5 => (true, false, false),
+                    6 | 7 | 8 => (false, true, false),
+                    9 | 10 => (false, false, true),
+                    _ => (false, false, false),
+                };
+                let len = match c.tape.draw(5) {
+                    0 | 1 => 0u32,
+                    2 => 1,
+                    3 => c.tape.range(1, 100) as u32,
+                    _ => (win + c.tape.range(0, 10) as u32).min(3000),
+                };
+                let len = if syn { 0 } else { len };
+                let data_seq0 = conn.irs.wrapping_add(1);
+                let payload: Vec<u8> = (0..len).map(|j| stream_byte(conn.key, seq_diff(seq.wrapping_add(j), data_seq0) as u64)).collect();
+                let mut flags = 0u8;
+                if syn {
+                    flags |= F_SYN;
+                }
+                if fin {
+                    flags |= F_FIN;
+                }
+                if rst {
+                    flags |= F_RST;
+                }
+                if ack.is_some() {
+                    flags |= F_ACK;
+                }
+                let t = Tcp { seq, ack: ack.unwrap_or(0), flags, win: *c.tape.pick(&[8192u16, 0, 100, 65535]), payload, opts: if syn { TcpOpts { mss: c.p_mss, wscale: c.p_ws, ..TcpOpts::default() } } else { TcpOpts::default() }, ..Tcp::default() };
+                stim = Stim::Seg { syn, fin, rst, ack, seq, len };
+                let f = c.seg(&t);
+                let q0 = c.sock().recv_queue();
+                let fr = c.inject(f)?;
+                let _ = fr;
+                let _ = q0;
+                if before == TimeWait {
+                    conn.t_last_seg = c.now;
+                }
+            }
+        }
+        c.stats.inc("c17.stimuli");
+        let after = c.sock().state();
+        c.log(|| format!("{:?}: {} -> {}", stim, st_name(before), st_name(after)));
+        if after != before {
+            c.stats.inc("c17.transitions");
+            c.stats.cover(((before as u64) << 8) | after as u64);
+            if after == TimeWait {
+                conn.t_timewait = c.now;
+                conn.t_last_seg = c.now;
+            }
+        }
+        if !c.props.has("C17") {
+            continue;
+        }
+        // ---------------- the acceptor
+        let bad = |why: &str| -> Result<(), Violation> {
+            let kind = match &stim {
+                Stim::Api(n) => format!("api-{}", n),
+                Stim::Egress => "egress".to_string(),
+                Stim::Seg { syn, fin, rst, ack, .. } => format!("seg{}{}{}{}", if *syn { "+syn" } else { "" }, if *fin { "+fin" } else { "" }, if *rst { "+rst" } else { "" }, if ack.is_some() { "+ack" } else { "" }),
+            };
+            Err(viol(
+                "C17",
+                "transition-acceptor",
+                if conn.closed_in_synrcvd { "C17.edge/after-close-in-syn-received".to_string() } else { format!("C17.edge/{}->{}/{}/{}", st_name(before), st_name(after), kind, why) },
+                format!("state changed {} -> {} on stimulus {:?}: {} ; reference: iss={:?} rcv_nxt={} edge={} fin_seq={:?} snd_max={}", st_name(before), st_name(after), stim, why, iss, rcv_nxt, edge, fin_seq, c.v_snd_max),
+            ))
+        };
+        // TIME-WAIT must end by itself
+        if before == TimeWait && matches!(stim, Stim::Egress) && c.now >= conn.t_last_seg + 10_000_000 && after == TimeWait {
+            return Err(viol("C17", "time-wait", "C17.time-wait/not-expired", format!("TIME-WAIT still held at an egress pass {} us after the last segment", c.now - conn.t_last_seg)));
+        }
+        if after == before {
+            continue;
+        }
+        match &stim {
+            Stim::Api(name) => {
+                let ok = match (*name, before, after) {
+                    ("listen", Closed, Listen) => true,
+                    ("connect", Closed, SynSent) => true,
+                    ("close", Listen, Closed) | ("close", SynSent, Closed) => true,
+                    ("close", SynReceived, FinWait1) | ("close", Established, FinWait1) => true,
+                    ("close", CloseWait, LastAck) => true,
+                    ("abort", _, Closed) => true,
+                    // listen/connect on a socket that is not open first resets it
+                    // documented: a socket in TIME-WAIT is not "open" and may be reused at once
+                    ("listen", TimeWait, Listen) | ("connect", TimeWait, SynSent) => true,
+                    _ => false,
+                };
+                if !ok {
+                    return bad("api call off its documented edge");
+                }
+            }
+            Stim::Egress => {
+                let ok = match (before, after) {
+                    (TimeWait, Closed) => {
+                        if c.now < conn.t_timewait + 10_000_000 {
+                            return bad("TIME-WAIT left earlier than 10 s");
+                        }
+                        true
+                    }
+                    _ => false,
+                };
+                if !ok {
+                    return bad("an egress pass alone may only expire TIME-WAIT (no timeout configured)");
+                }
+            }
+            Stim::Seg { syn, fin, rst, ack, seq, len } => {
+                let (syn, fin, rst, ack, seq, len) = (*syn, *fin, *rst, *ack, *seq, *len);
+                let acceptable = if len == 0 {
+                    if win == 0 { seq == rcv_nxt } else { seq_le(rcv_nxt, seq) && seq_lt(seq, edge) }
+                } else {
+                    win > 0 && ((seq_le(rcv_nxt, seq) && seq_lt(seq, edge)) || (seq_lt(rcv_nxt, seq.wrapping_add(len)) && seq_le(seq.wrapping_add(len), edge)))
+                };
+                let acks_iss = iss.map(|i| ack == Some(i.wrapping_add(1))).unwrap_or(false);
+                let acks_fin = fin_seq.map(|f| ack == Some(f.wrapping_add(1))).unwrap_or(false);
+                let fin_in_order = fin && !syn && !rst && ack.is_some() && seq_le(seq, rcv_nxt) && seq_le(rcv_nxt, seq.wrapping_add(len)) && seq_le(seq.wrapping_add(len), if seq_lt(edge, rcv_nxt) { rcv_nxt } else { edge });
+                let rst_ok = rst && acceptable;
+                match (before, after) {
+                    (Listen, SynReceived) => {
+                        if !(syn && !rst && ack.is_none()) {
+                            return bad("LISTEN left on something other than a bare SYN");
+                        }
+                        // new incarnation learned from the wire
+                        conn.irs = seq;
+                    }
+                    (SynSent, Established) => {
+                        if !(syn && !rst && acks_iss) {
+                            return bad("ESTABLISHED entered from SYN-SENT without a SYN|ACK acknowledging exactly ISS+1");
+                        }
+                        conn.irs = seq;
+                    }
+                    (SynSent, SynReceived) => {
+                        if !(syn && !rst && ack.is_none()) {
+                            return bad("SYN-RECEIVED entered from SYN-SENT on something other than a bare SYN");
+                        }
+                        conn.irs = seq;
+                    }
+                    (SynSent, Closed) => {
+                        if !(rst && acks_iss) {
+                            return bad("SYN-SENT reset by something other than RST|ACK of exactly ISS+1");
+                        }
+                    }
+                    (SynReceived, Established) => {
+                        if !(acks_iss && !rst && !syn) {
+                            return bad("ESTABLISHED entered from SYN-RECEIVED without an ACK of exactly ISS+1");
+                        }
+                    }
+                    (SynReceived, CloseWait) => {
+                        if !(acks_iss && fin_in_order) {
+                            return bad("CLOSE-WAIT entered from SYN-RECEIVED without an in-order FIN acknowledging ISS+1");
+                        }
+                        conn.fin_accepted = true;
+                    }
+                    (SynReceived, Listen) => {
+                        if !(rst_ok && conn.was_listener) {
+                            return bad("SYN-RECEIVED returned to LISTEN without an in-window RST on a listener");
+                        }
+                    }
+                    (Established, CloseWait) | (FinWait2, TimeWait) => {
+                        if !fin_in_order {
+                            return bad("peer-close transition without an in-order FIN");
+                        }
+                        conn.fin_accepted = true;
+                    }
+                    (FinWait1, FinWait2) => {
+                        if !(acks_fin && !rst) {
+                            return bad("FIN-WAIT-2 entered without an acknowledgment of the socket's own FIN");
+                        }
+                    }
+                    (FinWait1, Closing) => {
+                        if !fin_in_order {
+                            return bad("CLOSING entered without an in-order FIN");
+                        }
+                        conn.fin_accepted = true;
+                    }
+                    (FinWait1, TimeWait) => {
+                        if !(fin_in_order && acks_fin) {
+                            return bad("TIME-WAIT entered from FIN-WAIT-1 without both an in-order FIN and the ACK of our FIN");
+                        }
+                        conn.fin_accepted = true;
+                    }
+                    (Closing, TimeWait) | (LastAck, Closed) => {
+                        if !(acks_fin && !rst) && !(rst_ok && after == Closed) {
+                            return bad("left without an acknowledgment of the socket's own FIN");
+                        }
+                    }
+                    (_, Closed) => {
+                        if !rst_ok {
+                            return bad("connection reset by something other than an in-window RST");
+                        }
+                    }
+                    _ => {
+                        return bad("not an edge of the RFC 9293 state diagram");
+                    }
+                }
+            }
+        }
     }
     Ok(())
 }
